@@ -382,7 +382,7 @@ SIZES = {
     "quick": {"sort": [1, 2, 3, 4, 5], "subsets": [1, 2, 3, 4, 5], "fc_asc": [1, 2, 3, 4], "fc_desc": [1, 2, 3, 4]},
     "thorough": {"sort": [1, 2, 3, 4, 5, 6], "subsets": [1, 2, 3, 4, 5, 6, 7], "fc_asc": [1, 2, 3, 4, 5], "fc_desc": [1, 2, 3, 4, 5]},
 }
-TIMEOUT = {"quick": 40, "thorough": 900}
+TIMEOUT = {"quick": 300, "thorough": 900}  # per query; quick queries take < 5 s on an idle core, the margin is for oversubscribed machines
 
 
 def run(tier: str, seed: int) -> Outcome:
